@@ -173,7 +173,7 @@ func checkC16(c *Ctx) {
 	c.Obs("interval_classes", ovSeen)
 
 	// (c) Union2D pruned vs EvaluateSlow
-	nUni := c.Pick(3000, 60000)
+	nUni := c.Pick(24000, 200000)
 	nPts := c.Pick(400, 1500)
 	blends := []string{"default", "PolyMin", "RoundMin", "ChamferMin", "ExpMin"}
 	type uniCase struct {
@@ -229,6 +229,40 @@ func checkC16(c *Ctx) {
 				desc = append(desc, fmt.Sprintf("%s@(%g,%g)", d, t.X, t.Y))
 				continue
 			}
+			combined := false
+			if ru.P(0.2) {
+				// a partial overlap of two primitives: Intersect2D / Difference2D of an exact first operand never report less than
+				// the distance to the first operand's box, so they are legitimate operands of a pruned union
+				size2 := size * ru.R(0.4, 1.5)
+				var s1 sdf.SDF2
+				switch ru.I(3) {
+				case 0:
+					s1, _ = sdf.Circle2D(size2)
+				case 1:
+					s1 = sdf.Box2D(v2.Vec{X: size2 * ru.R(0.5, 2), Y: size2 * ru.R(0.5, 2)}, 0)
+				default: // a long thin bar across the first operand: the common part is much smaller than either box
+					s1 = sdf.Box2D(v2.Vec{X: size2 * ru.R(0.05, 0.4), Y: size2 * ru.R(2, 8)}, 0)
+				}
+				off := v2.Vec{X: ru.R(-1, 1) * size, Y: ru.R(-1, 1) * size}
+				s1 = sdf.Transform2D(s1, sdf.Translate2d(off).Mul(sdf.Rotate2d(ru.R(0, 6.28))))
+				var cmb sdf.SDF2
+				var cd string
+				if ru.Bool() {
+					cmb, cd = sdf.Intersect2D(s, s1), "intersect"
+				} else {
+					cmb, cd = sdf.Difference2D(s, s1), "difference"
+				}
+				// keep it only if it has material (an empty operand is a known finding of its own)
+				has := false
+				cb := s.BoundingBox()
+				for t := 0; t < 60 && !has; t++ {
+					has = cmb.Evaluate(v2.Vec{X: ru.R(cb.Min.X, cb.Max.X), Y: ru.R(cb.Min.Y, cb.Max.Y)}) < -1e-6*size
+				}
+				if has {
+					s, d = cmb, fmt.Sprintf("%s(%s, prim(%g)+(%.3g,%.3g))", cd, d, size2, off.X, off.Y)
+					combined = true
+				}
+			}
 			var t v2.Vec
 			switch layout {
 			case 0:
@@ -240,8 +274,14 @@ func checkC16(c *Ctx) {
 			default:
 				t = v2.Vec{X: float64(j) * scale * 0.5, Y: 0}
 			}
-			m := sdf.Translate2d(t).Mul(sdf.Rotate2d(ru.R(0, 2*math.Pi)))
-			s = sdf.Transform2D(s, m)
+			ang := ru.R(0, 2*math.Pi)
+			if combined && ru.P(0.6) {
+				ang = 0 // keep the operand's own (possibly tight) box: a rotation would only loosen it
+			}
+			m := sdf.Translate2d(t).Mul(sdf.Rotate2d(ang))
+			if ang != 0 || t != (v2.Vec{}) {
+				s = sdf.Transform2D(s, m)
+			}
 			cs := &countSDF2{s: s}
 			counters = append(counters, cs)
 			ops = append(ops, cs)
@@ -261,12 +301,29 @@ func checkC16(c *Ctx) {
 				args = append(args, nil)
 			}
 		}
+		blend := blends[i%len(blends)]
+		// a nested union as one operand; its own blend is installed before or after the outer union is built. A blended
+		// operand can dip below the distance to its own box (known finding), so such cases are queried inside that box only.
+		var nested *sdf.UnionSDF2
+		nestedLate := false
+		if blend == "default" && layout != 4 && len(ops) >= 3 && ru.P(0.3) {
+			if in, ok := sdf.Union2D(ops[0], ops[1]).(*sdf.UnionSDF2); ok {
+				nested, nestedLate = in, ru.Bool()
+				if !nestedLate {
+					nested.SetMin(sdf.PolyMin(scale * ru.LogR(0.05, 1)))
+				}
+				rest := append([]sdf.SDF2{nested}, ops[2:]...)
+				args = rest
+			}
+		}
 		u0 := sdf.Union2D(args...)
 		u, ok := u0.(*sdf.UnionSDF2)
 		if !ok {
 			return
 		}
-		blend := blends[i%len(blends)]
+		if nested != nil && nestedLate {
+			nested.SetMin(sdf.PolyMin(scale * ru.LogR(0.05, 1)))
+		}
 		k := scale * ru.LogR(0.01, 3)
 		// history: one evaluation with the default minimum before a blend is installed; that very point is queried again first
 		warm := v2.Vec{X: ru.R(-1, 1) * scale, Y: ru.R(-1, 1) * scale}
@@ -287,17 +344,32 @@ func checkC16(c *Ctx) {
 		for q := 0; q < nPts; q++ {
 			var p v2.Vec
 			mode := ru.I(4)
+			if ru.P(0.2) {
+				mode = 7
+			}
 			if layout == 4 && ru.P(0.7) {
 				mode = 4
 			}
 			if q == 0 {
 				mode = 5
 			}
+			if nested != nil {
+				mode = 6
+			}
 			switch mode {
 			case 4: // dyadic lattice point
 				p = v2.Vec{X: float64(ru.IR(-24, 24)) / 8, Y: float64(ru.IR(-24, 24)) / 8}
 			case 5:
 				p = warm
+			case 6:
+				nb := nested.BoundingBox()
+				p = v2.Vec{X: ru.R(nb.Min.X, nb.Max.X), Y: ru.R(nb.Min.Y, nb.Max.Y)}
+			case 7: // diagonally off a corner of an operand's box (where a box is furthest from what it holds)
+				ob := ops[ru.I(len(ops))].BoundingBox()
+				sx, sy := ru.Sign(), ru.Sign()
+				cn := v2.Vec{X: ob.Center().X + sx*ob.Size().X/2, Y: ob.Center().Y + sy*ob.Size().Y/2}
+				t := ob.Size().Length() * ru.LogR(0.02, 3)
+				p = cn.Add(v2.Vec{X: sx * t * ru.R(0.5, 1), Y: sy * t * ru.R(0.5, 1)})
 			case 0: // anywhere in an enlarged box
 				ctr := bb.Center()
 				sz := bb.Size()
